@@ -27,7 +27,7 @@ def strategy(tier):
     def cases(draw):
         spec = draw(gen.charts(max_states=16 if big else 13, mix=MIX, p_hist=0.7,
                                force_history=True, p_orth_root=0.15, allow_final=False,
-                               n_events=3, min_tr=6, max_tr=16, p_eventless=0.1))
+                               n_events=3, min_tr=6, max_tr=16, p_eventless=0.1, p_aguard=0.15))
         ops = draw(gen.histories(spec, 10, 30, p_all=0.4, p_none=0.05))
         return {'spec': spec, 'ops': ops}
     return cases()
